@@ -144,28 +144,51 @@ def search(ctx, disagreements, proof_info):
                         if m:
                             return {"instance": ca.name, "channel": ch, "request": list(r), "forwarded": list(got),
                                     "monitor": m}
-    # 2. a monitor that fired during co-simulation / disagreement traces / random runs (machine instances)
+    # 2. Burst2Beat: isolate the burst that was being served when a monitor fired / the model disagreed and
+    #    replay it alone from reset under three ready schedules with the monitor armed (short witness)
     machine_dis = [d for d in disagreements if isinstance(d, Disagreement)]
     all_jobs = getattr(ctx, "jobs", None) or jobs(ctx.tier)
+    scheds = [lambda t: 1, lambda t: t % 2, lambda t: int(t % 3 == 2)]
+    b2b_dis = [d for d in machine_dis if (d.inst_name or "").startswith("Burst2Beat") and d.job is not None]
+    for d in b2b_dis[:6]:
+        try:
+            inst = all_jobs[d.job].make()
+        except Exception:
+            continue
+        if not inst.hold:
+            continue
+        root = inst.netlist.snapshot()
+        cur = None
+        for letter in d.trace:
+            from explore import impl_step
+            impl_step(inst, tuple(letter))
+            if inst._cur[0]:
+                cur = inst._cur[1]
+        inst.netlist.restore(root)
+        if cur is not None and legal(inst.aw, cur[0], cur[1], cur[2], eff_burst(inst.caps, cur[3])):
+            r = c10lib.monitor_sweep(inst, [tuple(cur)], scheds)
+            if r:
+                trace, msg = r
+                return {"instance": inst.name, "trace": [list(l) for l in trace], "monitor": msg, "letter_format": FMT}
+    # 3. Burst2Beat: legal requests of the exhaustive box under three ready schedules, monitor armed
+    if b2b_dis or proof_info.get("failed"):
+        for caps in (ALL, (FIXED, INCR), (FIXED, WRAP), (FIXED,)):
+            inst = B2BInst("Burst2Beat/aw12/caps=%s" % "".join(map(str, caps)), aw=12, caps=caps)
+            reqs = [(a + base, ln, size, bt, 1 + (a & 1))
+                    for bt in (WRAP, INCR, FIXED) for size in range(4) for ln in (0, 1, 2, 3, 7, 15)
+                    for a in range(0, 128, 3 if caps == ALL else 7) for base in ((0, 0xF80) if caps == ALL else (0,))
+                    if legal(12, a + base, ln, size, eff_burst(set(caps), bt))]
+            r = c10lib.monitor_sweep(inst, reqs, scheds, deadline=deadline)
+            if r:
+                trace, msg = r
+                return {"instance": inst.name, "trace": [list(l) for l in trace], "monitor": msg, "letter_format": FMT}
+            if time.time() > deadline:
+                break
+    # 4. a monitor that fired during co-simulation (long trace), then random extension of disagreement traces
     for d in machine_dis:
         if getattr(d, "kind", "").startswith("monitor:"):
             return {"instance": d.inst_name, "trace": [list(l) for l in d.trace], "monitor": d.kind[8:],
                     "letter_format": FMT}
-    # 3. Burst2Beat: every legal request of the exhaustive box under three ready schedules, monitor armed
-    for caps in (ALL, (FIXED, INCR), (FIXED, WRAP), (FIXED,)):
-        inst = B2BInst("Burst2Beat/aw12/caps=%s" % "".join(map(str, caps)), aw=12, caps=caps)
-        reqs = [(a + base, ln, size, bt, 1 + (a & 1))
-                for bt in (WRAP, INCR, FIXED) for size in range(4) for ln in range(16)
-                for a in range(0, 128, 1 if caps == ALL else 5) for base in ((0, 0xF80) if caps == ALL else (0,))
-                if legal(12, a + base, ln, size, eff_burst(set(caps), bt))]
-        r = c10lib.monitor_sweep(inst, reqs, [lambda t: 1, lambda t: t % 2, lambda t: int(t % 3 == 2)],
-                                 deadline=deadline)
-        if r:
-            trace, msg = r
-            return {"instance": inst.name, "trace": [list(l) for l in trace], "monitor": msg, "letter_format": FMT}
-        if time.time() > deadline:
-            break
-    # 4. generic: extend disagreement traces / random runs with monitors armed
     return generic_search(ctx, machine_dis, all_jobs, FMT, quick_s=40, thorough_s=300)
 
 
